@@ -76,6 +76,7 @@ class Facts:
     def __init__(self, fact_dir, crates=CRATES):
         self.dir = fact_dir
         self.bodies = {}      # path -> body
+        self.by_dp = {}       # viewpoint-independent def path -> body path
         self.mir = {}         # path -> mir summary
         self.items = {}       # crate -> items
         self.errors = []
@@ -88,11 +89,13 @@ class Facts:
             self.crates.append(c)
             for b in d["bodies"]:
                 self.bodies[b["path"]] = b
+                self.by_dp[b["dp"]] = b["path"]
             for m in d["mir"]:
                 self.mir[m["path"]] = m
             self.items[c] = d["items"]
             self.errors += d["errors"]
         self._cg = None
+        self._ti = None
 
     # ---- lookup -----------------------------------------------------------
     def body(self, path):
@@ -146,12 +149,29 @@ class Facts:
                 k = n.get("k")
                 if k in ("Call", "Zst") and "fn" in n:
                     f = n["fn"]
-                    edges.append((f["path"], f.get("resolved"), n))
+                    # link through the viewpoint-independent def path (re-exports change `path`)
+                    tgt = self.by_dp.get(f.get("dp"), f["path"])
+                    res = self.by_dp.get(f.get("resolved_dp"), f.get("resolved"))
+                    edges.append((tgt, res, n))
+                    # foreign generic code may call trait impls of local types it is instantiated with
+                    if tgt not in self.bodies and res not in self.bodies:
+                        for m in f.get("mentions", ()):
+                            for ip in self.trait_impls_of().get(m, ()):
+                                edges.append((ip, None, n))
                 elif k == "Closure":
                     edges.append((n["def"], None, n))
             cg[p] = edges
         self._cg = cg
         return cg
+
+    def trait_impls_of(self):
+        """ADT dp -> [paths of trait-impl method bodies for that self type]"""
+        if self._ti is None:
+            self._ti = {}
+            for p2, b2 in self.bodies.items():
+                if b2.get("impl_trait") and b2.get("impl_self_dp"):
+                    self._ti.setdefault(b2["impl_self_dp"], []).append(p2)
+        return self._ti
 
     def reachable(self, roots, enter=lambda path: True):
         """Set of local body paths reachable from roots through resolved callees (impl if
